@@ -75,12 +75,16 @@ Lemma with_cast_none e t : head_free t = true -> with_cast e t = Some (e, t).
 Proof. destruct t as [|[x|s| | |k] t]; intros H; try reflexivity. discriminate H. Qed.
 
 Lemma with_cast_some e k t :
-  (k = CBare -> lt_free t = true) -> with_cast e (KCast k :: t) = Some (ECast e k, t).
+  (ends_with_type_name k = true -> lt_free t = true) -> with_cast e (KCast k :: t) = Some (ECast e k, t).
 Proof.
-  intros H. cbn [with_cast]. destruct k; [|reflexivity].
-  specialize (H eq_refl). destruct t as [|[x|s| | |k] t]; try reflexivity.
+  intros H. cbn [with_cast]. destruct (ends_with_type_name k); [|reflexivity].
+  specialize (H eq_refl). destruct t as [|[x|s| | |k'] t]; try reflexivity.
   destruct s; try reflexivity. discriminate H.
 Qed.
+
+(** the transcription of darklua's type loop agrees with the specification *)
+Lemma trailing_bare_spec t : trailing_bare t = ends_with_type_name t.
+Proof. induction t; cbn [trailing_bare ends_with_type_name]; congruence. Qed.
 
 Lemma subexpr_atom f lim a t :
   subexpr (S f) lim (KAtom a :: t) =
@@ -142,9 +146,9 @@ Proof.
   - rewrite last_app_nonempty by discriminate. reflexivity.
   - intros E. apply app_eq_nil in E as [_ E]. discriminate E.
 Qed.
-Lemma ends_bare_cast x k : ends_bare (print_plain (ECast x k)) = match k with CBare => true | CParam => false end.
+Lemma ends_bare_cast x k : ends_bare (print_plain (ECast x k)) = ends_with_type_name k.
 Proof.
-  unfold ends_bare. cbn [print_plain]. rewrite last_app_nonempty by discriminate. destruct k; reflexivity.
+  unfold ends_bare. cbn [print_plain]. rewrite last_app_nonempty by discriminate. reflexivity.
 Qed.
 
 Lemma lt_free_binop o t : lt_free (KOp (sym_of_binop o) :: t) = negb (is_lt o).
@@ -223,8 +227,8 @@ Proof.
   - (* cast: the inner expression is an atom or is between parentheses *)
     cbn [wp] in Hwp. apply andb_true_iff in Hwp as [Wx Hshape].
     cbn [size] in HF, Hn.
-    assert (Hk : k = CBare -> lt_free rest = true).
-    { intros ->. unfold cast_ok in Hcast. rewrite ends_bare_cast in Hcast. exact Hcast. }
+    assert (Hk : ends_with_type_name k = true -> lt_free rest = true).
+    { intros E. unfold cast_ok in Hcast. rewrite ends_bare_cast, E in Hcast. exact Hcast. }
     destruct x as [a|o' x1 x2|u' x1|y|x1 k1]; try discriminate Hshape.
     + cbn [print_plain app spine].
       rewrite subexpr_atom, (with_cast_some _ _ _ Hk), Nat.sub_0_r. reflexivity.
@@ -301,7 +305,7 @@ Lemma prec_ok_facts P : prec_ok P = true ->
   /\ (forall o o', right_bin P o o' = false -> rprio o < lprio o')
   /\ (forall o u, left_un P o u = false -> lprio o <= UNARY_PRIORITY)
   /\ (forall u o', un_bin P u o' = false -> UNARY_PRIORITY < lprio o')
-  /\ cast_bin P = true /\ cast_un P = true /\ cast_cast P = true /\ left_cast P LowerThan CBare = true.
+  /\ cast_bin P = true /\ cast_un P = true /\ cast_cast P = true /\ left_cast P LowerThan true = true.
 Proof.
   unfold prec_ok. intros H.
   apply andb_true_iff in H as [H C4]. apply andb_true_iff in H as [H C3].
@@ -340,7 +344,7 @@ Proof. intros ->. cbn [wrap]. apply ends_bare_paren. Qed.
 
 (** when the written text of [e] ends with a cast to a bare type name, darklua's walk down the
     right spine of the TREE finds it *)
-Lemma ends_bare_trailing P o : left_cast P o CBare = true ->
+Lemma ends_bare_trailing P o : left_cast P o true = true ->
   forall e, ends_bare (print_plain (parenthesize P e)) = true -> trailing_cast P o e = true.
 Proof.
   intros Hlc. induction e as [a|o' l IHl r IHr|u x IHx|x IHx|x IHx k]; intros H.
@@ -353,7 +357,7 @@ Proof.
     cbn [wrap] in H. apply IHx. exact H.
   - cbn [parenthesize] in H. rewrite ends_bare_paren in H. discriminate H.
   - cbn [parenthesize] in H. rewrite ends_bare_cast in H. cbn [trailing_cast].
-    destruct k; [exact Hlc|discriminate H].
+    rewrite trailing_bare_spec, H. exact Hlc.
 Qed.
 
 Lemma parenthesize_wp P : prec_ok P = true -> forall e, wp (parenthesize P e) = true.
